@@ -6,6 +6,7 @@ import (
 	"fmt"
 	"go/token"
 	"go/types"
+	"os"
 	"sort"
 
 	"golang.org/x/tools/go/ssa"
@@ -383,6 +384,269 @@ func c11Goroutines(c *Ctx, defectFns map[*ssa.Function]string) {
 		}
 	}
 	c.Note("R11c: %d go statements in %d module functions reachable from /sign", len(gos), len(reachable))
+	// R11f: inside goroutines that cannot recover, a constant-index access with no length
+	// test at all is a fatal crash waiting for the right input
+	c.Rule("R11f", "code reachable from an unrecovered helper goroutine of the /sign handler never indexes a string/slice at a constant position without any length test on the way", 0)
+	scope := map[*ssa.Function]string{}
+	for _, g := range gos {
+		var body *ssa.Function
+		switch v := g.Call.Value.(type) {
+		case *ssa.MakeClosure:
+			body, _ = v.Fn.(*ssa.Function)
+		case *ssa.Function:
+			body = v
+		}
+		if body == nil {
+			body = g.Call.StaticCallee()
+		}
+		if body == nil || body.Blocks == nil || hasDeferredRecover(p, body) {
+			continue
+		}
+		for f := range p.moduleReachAll([]*ssa.Function{body}) {
+			scope[f] = p.FName(p.Outer(g.Parent()))
+		}
+	}
+	var fns []*ssa.Function
+	for f := range scope {
+		fns = append(fns, f)
+	}
+	sort.Slice(fns, func(i, j int) bool { return p.FName(fns[i]) < p.FName(fns[j]) })
+	for _, fn := range fns {
+		for _, f := range constIndexNoLen(p, fn) {
+			if f.OK {
+				c.Pass("R11f", f.Key, f.Pos, f.Detail)
+			} else {
+				c.Fail("R11f", f.Key, f.Pos, f.Detail+" (runs in the unrecovered goroutine started by "+scope[fn]+": the panic kills the server)", f.Path...)
+			}
+		}
+	}
+	names := []string{}
+	for _, f := range fns {
+		names = append(names, p.FName(f))
+	}
+	c.Note("R11f: %d module functions run inside unrecovered helper goroutines: %v", len(fns), names)
+	c.runControl("R11f constant-index control (ctl/idx.First)", "idx.First index[0]", func(cp *Prog) []gFinding {
+		var out []gFinding
+		for _, f := range cp.Funcs {
+			out = append(out, constIndexNoLen(cp, f)...)
+		}
+		return out
+	})
+	if os.Getenv("RELICVET_DEBUG_IDX") != "" {
+		for _, f := range p.Funcs {
+			for _, x := range constIndexNoLen(p, f) {
+				if !x.OK {
+					fmt.Println("DEBUG-IDX", x.Key, x.Pos)
+				}
+			}
+		}
+	}
+}
+
+// constIndexNoLen: x[k] with constant k on a string/slice whose length is never compared
+// (and which is not of statically known length) on some path to the access.
+func constIndexNoLen(p *Prog, fn *ssa.Function) (out []gFinding) {
+	n := 0
+	for _, b := range fn.Blocks {
+		for _, in := range b.Instrs {
+			var x, idx ssa.Value
+			switch v := in.(type) {
+			case *ssa.Lookup:
+				if _, isMap := v.X.Type().Underlying().(*types.Map); isMap {
+					continue
+				}
+				x, idx = v.X, v.Index
+			case *ssa.Index:
+				// string (or array value) indexing
+				if bt, ok := v.X.Type().Underlying().(*types.Basic); !ok || bt.Info()&types.IsString == 0 {
+					continue
+				}
+				x, idx = v.X, v.Index
+			case *ssa.IndexAddr:
+				if _, isSlice := v.X.Type().Underlying().(*types.Slice); !isSlice {
+					continue // arrays and pointers to arrays have a static length
+				}
+				x, idx = v.X, v.Index
+			default:
+				continue
+			}
+			k, isConst := constInt(idx)
+			if !isConst {
+				continue
+			}
+			// statically sized sources
+			if staticLenAtLeast(x, k+1) {
+				continue
+			}
+			n++
+			key := fmt.Sprintf("%s index[%d]#%d", p.FName(fn), k, n)
+			// group: x and what it was sliced / merged from
+			g := map[ssa.Value]bool{}
+			var walk func(v ssa.Value, d int)
+			walk = func(v ssa.Value, d int) {
+				if v == nil || g[v] || d > 12 {
+					return
+				}
+				g[v] = true
+				switch y := v.(type) {
+				case *ssa.Slice:
+					walk(y.X, d+1)
+				case *ssa.Phi:
+					for _, e := range y.Edges {
+						walk(e, d+1)
+					}
+				case *ssa.ChangeType:
+					walk(y.X, d+1)
+				case *ssa.Convert:
+					walk(y.X, d+1)
+				case *ssa.UnOp:
+					if a, ok := y.X.(*ssa.Alloc); ok {
+						for _, r := range *a.Referrers() {
+							if st, ok := r.(*ssa.Store); ok && st.Addr == a {
+								walk(st.Val, d+1)
+							}
+						}
+					}
+				}
+			}
+			walk(x, 0)
+			// only the value itself and what it is a *prefix-preserving* view of counts for len tests;
+			// a test on the unsliced original does not bound a tail slice, so restrict to x and phis/loads
+			direct := map[ssa.Value]bool{}
+			var walk2 func(v ssa.Value, d int)
+			walk2 = func(v ssa.Value, d int) {
+				if v == nil || direct[v] || d > 8 {
+					return
+				}
+				direct[v] = true
+				switch y := v.(type) {
+				case *ssa.Phi:
+					// every incoming value must be tested: handled by requiring a test on the phi itself
+					_ = y
+				case *ssa.ChangeType:
+					walk2(y.X, d+1)
+				case *ssa.UnOp:
+					if a, ok := y.X.(*ssa.Alloc); ok {
+						for _, r := range *a.Referrers() {
+							if st, ok := r.(*ssa.Store); ok && st.Addr == a {
+								walk2(st.Val, d+1)
+							}
+							if l, ok := r.(*ssa.UnOp); ok {
+								direct[l] = true
+							}
+						}
+					}
+				}
+			}
+			walk2(x, 0)
+			del := map[edge]bool{}
+			for _, bb := range fn.Blocks {
+				ifi, ok := bb.Instrs[len(bb.Instrs)-1].(*ssa.If)
+				if !ok {
+					continue
+				}
+				if condTestsLen(p, ifi.Cond, direct) {
+					for si := range bb.Succs {
+						del[edge{bb.Index, si}] = true
+					}
+				}
+			}
+			pred := map[int]int{}
+			if reach(fn, []*ssa.BasicBlock{fn.Blocks[0]}, del, pred)[b.Index] {
+				out = append(out, gFinding{Key: key, Pos: p.Pos(in.Pos()), Detail: fmt.Sprintf("constant index [%d] into a value whose length is not tested on some path", k), Path: p.witness(fn, pred, b.Index)})
+			} else {
+				out = append(out, gFinding{Key: key, Pos: p.Pos(in.Pos()), OK: true, Detail: "a length test precedes the access"})
+			}
+		}
+	}
+	return
+}
+
+func staticLenAtLeast(x ssa.Value, n int64) bool {
+	switch v := x.(type) {
+	case *ssa.Const:
+		if s, ok := constString(v); ok {
+			return int64(len(s)) >= n
+		}
+	case *ssa.MakeSlice:
+		if k, ok := constInt(v.Len); ok {
+			return k >= n
+		}
+	case *ssa.Slice:
+		// slice of an array / fixed-size value: arr[:]
+		if pt, ok := v.X.Type().Underlying().(*types.Pointer); ok {
+			if at, ok := pt.Elem().Underlying().(*types.Array); ok && v.High == nil {
+				lo := int64(0)
+				if v.Low != nil {
+					l, ok := constInt(v.Low)
+					if !ok {
+						return false
+					}
+					lo = l
+				}
+				return at.Len()-lo >= n
+			}
+		}
+		if v.High != nil {
+			if hi, ok := constInt(v.High); ok {
+				lo := int64(0)
+				if v.Low != nil {
+					l, ok := constInt(v.Low)
+					if !ok {
+						return false
+					}
+					lo = l
+				}
+				return hi-lo >= n
+			}
+		}
+	case *ssa.Call:
+		// hash sums have a fixed size
+		if c := v.Common(); c.IsInvoke() && c.Method.Name() == "Sum" {
+			return true
+		}
+	}
+	return false
+}
+
+// condTestsLen: the condition compares len(y) for a y in the set, compares y with a
+// string constant, or is strings.HasPrefix/HasSuffix(y, …) / bytes.HasPrefix.
+func condTestsLen(p *Prog, cond ssa.Value, set map[ssa.Value]bool) bool {
+	for {
+		if u, ok := cond.(*ssa.UnOp); ok && u.Op == token.NOT {
+			cond = u.X
+			continue
+		}
+		break
+	}
+	isLen := func(v ssa.Value) bool {
+		call, ok := stripIntConv(v).(*ssa.Call)
+		if !ok {
+			return false
+		}
+		bi, ok := call.Call.Value.(*ssa.Builtin)
+		return ok && bi.Name() == "len" && set[call.Call.Args[0]]
+	}
+	switch x := cond.(type) {
+	case *ssa.BinOp:
+		if isLen(x.X) || isLen(x.Y) {
+			return true
+		}
+		if set[x.X] || set[x.Y] {
+			if _, ok := constString(x.X); ok {
+				return true
+			}
+			if _, ok := constString(x.Y); ok {
+				return true
+			}
+		}
+	case *ssa.Call:
+		switch p.calleeName(x.Common()) {
+		case "strings.HasPrefix", "strings.HasSuffix", "bytes.HasPrefix", "bytes.HasSuffix":
+			return set[x.Call.Args[0]]
+		}
+	}
+	return false
 }
 
 func hasDeferredRecover(p *Prog, fn *ssa.Function) bool {
